@@ -405,9 +405,33 @@ func (p *PS[S]) TransferNode(w PSWorld[S], n ast.Node) PSWorld[S] {
 	s := w.S
 	WalkEval(n, func(x ast.Node, cond bool) {
 		s = p.Node(s, x, cond, facts)
-		switch x.(type) {
+		switch y := x.(type) {
 		case *ast.AssignStmt, *ast.IncDecStmt, *ast.ValueSpec, *ast.CallExpr:
 			p.kill(facts, x)
+			// a boolean local assigned a constant carries that value along the path (flag idiom:
+			// `release := true ... release = false ... if release { ... }`)
+			switch z := y.(type) {
+			case *ast.AssignStmt:
+				if len(z.Lhs) == len(z.Rhs) {
+					for i, l := range z.Lhs {
+						if cb := p.constBool(z.Rhs[i]); cb != nil {
+							if k, flip, ok := p.AtomKey(l); ok {
+								facts[k] = *cb != flip
+							}
+						}
+					}
+				}
+			case *ast.ValueSpec:
+				if len(z.Names) == len(z.Values) {
+					for i, id := range z.Names {
+						if cb := p.constBool(z.Values[i]); cb != nil {
+							if k, flip, ok := p.AtomKey(id); ok {
+								facts[k] = *cb != flip
+							}
+						}
+					}
+				}
+			}
 		}
 	})
 	// a definition of a tracked boolean makes its defining relation available again
